@@ -102,6 +102,8 @@ fn grammar_untagged(rng: &mut Rng, idx: u64) -> GCase {
             let rx = gen_nonempty(rng, &gen);
             let t = rx.to_lark_term(rng);
             let g = GCase::lark(&format!("genterm{idx}"), &format!("start: T\nT: {t}\n")).tag("gen_term");
+            // lexemes whose remaining language can be empty without being syntactically empty
+            let g = if rx.has_and() { g.tag("regex_intersection") } else { g };
             if rx.has_not() {
                 g.tag("regex_complement")
             } else {
